@@ -11,10 +11,12 @@ from kern2 import Snap, area2, cross3, fr_tok
 
 SPEC = {
     "lean_modules": ["Honeycomb.Props.C13", "Honeycomb.Props.C13b", "Honeycomb.Props.C13c", "Honeycomb.Props.C13d",
-                     "Honeycomb.Props.C13e", "Honeycomb.Props.C13f", "Honeycomb.Props.C13Gen"],
+                     "Honeycomb.Props.C13e", "Honeycomb.Props.C13f", "Honeycomb.Props.C13Gen", "Honeycomb.Props.C13GenB"],
     # Gen/Fan.lean is re-translated from honeycomb-kernels/src/triangulation/fan.rs and mod.rs before every build
-    "gen": ["fan"],
+    "gen": ["fan", "earclip"],
     "required_theorems": [
+        # Props/C13GenB.lean: the ear test, one clipping step, the loop and the whole ear-clipping kernel as translated ARE the model's
+        "C13_gen_earInside_ccw", "C13_gen_earInside_cw", "C13_gen_earTest", "C13_gen_earclip_step", "C13_gen_earclip_loop", "C13_gen_earclip", "C13_gen_earclip_ccw", "C13_gen_earclip_cw", "C13_gen_earclip_kernel_triangles",
         # Props/C13Gen.lean: check_requirements and BOTH fan kernels as translated ARE the model's (program equality, loop by induction)
         "C13_gen_check_requirements", "C13_gen_fan_loop_step", "C13_gen_fan_loop", "C13_gen_fanFrom_convex", "C13_gen_fanFrom_cell", "C13_gen_fanConvex", "C13_gen_check_requirements_ok_iff", "C13_gen_fanTest", "C13_gen_fan", "C13_gen_fan_kernel_star",
         "C13_check_requirements_ok_iff", "C13_shoelace_step", "C13_earclip_area_sum",
